@@ -290,7 +290,10 @@ example : wf (compl (joined [ranged 2 5 true false, point 7, ranged 9 12 false t
     expandMarkAbs (shift (compl (joined [ranged 2 5 true false, point 7, ranged 9 12 false true])) 4 3) 4 (-3) = false ∧
     expandMarkAbs (compl (joined [ranged 2 5 true false, point 7, ranged 9 12 false true])) 4 3 = false ∧
     expandMarkAbs (expand (compl (joined [ranged 2 5 true false, point 7, ranged 9 12 false true])) 4 3) 4 (-3) = false ∧
-    outerMarks (compl (joined [ranged 2 5 true false, point 7, ranged 9 12 false true])) = (true, true) := by
+    outerMarks (compl (joined [ranged 2 5 true false, point 7, ranged 9 12 false true])) = (true, true) ∧
+    shiftAbs (compl (joined [ranged 2 5 true false, point 7, ranged 9 12 false true])) 4 3 = false ∧
+    expandAbs (shift (compl (joined [ranged 2 5 true false, point 7, ranged 9 12 false true])) 4 3) 4 (-3) = false ∧
+    (den (compl (joined [ranged 2 5 true false, point 7, ranged 9 12 false true]))).Nodup := by
   decide
 
 /-! ### record level: the two-step programs on whole records -/
